@@ -15,7 +15,7 @@ from ..gens import sheet as S
 FEATURES = 'str,rstr,istr,isel,url,media,amp,attr,var'.split(',')
 RULE = ('generated stylesheets with features %s; model compared byte-for-byte, reference semantics compared on the flat items read back; verbatim and inertness checks on the real output; '
         'distinct = distinct text; non-trivial = a string body with a structural character ({ } ; , /* // url( ) or an interpolation') % FEATURES
-ASSUMPTIONS = ['the LALR parser builds the node tree that harness/gens/sheet.py:tree() predicts (checked on every case through the byte-exact output comparison)',
+ASSUMPTIONS = ['the LALR parser builds the node tree that harness/gens/sheet.py:tree() predicts (checked on every case through the byte-exact output comparison); independently of that prediction, the whole pipeline from the source TEXT (coq/Model/Lex.v + Parse.v + Eval.v: compile_text) is compared byte for byte with the real compiler on every case (abstentions counted in distribution.text_pipeline)',
                'harness/readcss.py reads the produced CSS back correctly (string-aware)', 'interpolated variables hold identifier / number values and are defined once, before use (the property quantifier)']
 TRUSTED = ['modelled by hand: plain string token (coq/Model/Lex.v), interpolation lookup and selector pre-pass (coq/Model/Eval.v), Property.fmt url() blank (coq/Model/Fmt.v)', 'reference semantics coq/Spec/Sem.v']
 IVALS = [('num', '5'), ('num', '12px'), ('word', 'foo'), ('word', 'b2'), ('word', 'x-y'), ('word', '_u'), ('word', 'red'), ('num', '7'), ('num', '50%'), ('num', '1.5')]
